@@ -903,3 +903,11 @@ Definition xfer_m : list Z :=
     cm (tuple_ctor_m VK RV) + cm (init_elem VK (applied_arrives RV));
     (* apply(take, tuple<Tr, int>{Tr{1}, 0}): likewise, into take's by-value parameter *)
     cm (tuple_ctor_m VK RV) + cm (init_elem VK (applied_arrives RV)) ].
+
+(* tuple_leaf(Args&&... args) : _value(etl::forward<Args>(args)...) -- direct-NON-list-initialisation (op tinit):
+   a std::vector<int> element built from the integer k = |n| mod 9 has k elements (list-initialisation would give one
+   element); a long element built from the double n + 0.5 is the truncated value; pair does the same *)
+Definition tuple_init_m (n : Z) : list Z :=
+  let k := Z.rem (Z.abs n) 9 in
+  let tr := if 0 <=? n then n else n + 1 in     (* trunc (n + 0.5) for an integer n: n for n >= 0, n + 1 for n < 0 *)
+  [k; k; tr; k; tr].
